@@ -211,6 +211,8 @@ def run(ctx: Ctx) -> None:
 
     fields_rule(ctx)
     asm_rule(ctx)
+    from ..parserfresh import fresh_rule
+    fresh_rule(ctx, "R19.fresh", ("ToyParser",))
 
 
 def num_rule(ctx: Ctx) -> None:
